@@ -13,10 +13,11 @@ VARS=${VARS:-v0}
 if [ -n "$REGEN" ] || [ ! -d probe ]; then
 go build -o gen.bin ./gen
 for V in $VARS; do
-  mkdir -p probe/$V; cp /verif/probes/core/schema.graphql probe/$V/; cp /verif/probes/core/blob.go.txt probe/$V/blob.go
-  python3 /verif/tools/mkconfig.py core $V > gqlgen.$V.yml
+  P=core; case $V in f*) P=fed;; esac
+  mkdir -p probe/$V; cp /verif/probes/$P/schema.graphql probe/$V/; [ $P = core ] && cp /verif/probes/core/blob.go.txt probe/$V/blob.go
+  python3 /verif/tools/mkconfig.py $P $V > gqlgen.$V.yml
   ./gen.bin gqlgen.$V.yml probe/$V/stub.go & 
 done; wait
-for V in $VARS; do cp /verif/probes/core/glue.go.txt probe/$V/glue.go; done
+for V in $VARS; do P=core; case $V in f*) P=fed;; esac; cp /verif/probes/$P/glue.go.txt probe/$V/glue.go; done
 fi
 python3 /verif/tools/mkreg.py $VARS > probereg/reg_gen.go
